@@ -308,10 +308,10 @@ def printable(s):
 
 def to_coq(case, obs):
     if case["fn"] == "read":
-        return f"CRead {cs('top')} {clines(case['lines'])} {cres_circ(obs)}"
+        return f"CRead {cs('top')} {cs(case['text'])} {clines(case['lines'])} {cres_circ(obs)}"
     d = case["circuit"]
     if "wexc" in obs:
-        return f"CRound {ccirc(d)} (mk_ord [] [] [] [] {cs('')}) {cexc(obs['wexc'])} (Raise OtherError)"
+        return f"CRound {ccirc(d)} (mk_ord [] [] [] [] {cs('')}) {cs('')} {cexc(obs['wexc'])} (Raise OtherError)"
     wl = obs["wlines"]
     types = {n[0]: n[1] for n in d["nodes"]}
     o_in = [l[1] for l in wl if l[0] == "I"]
@@ -321,7 +321,7 @@ def to_coq(case, obs):
     consts = [l for l in gl if types.get(l[1]) in ("0", "1")]
     o_const = consts[0][3][0] if consts and consts[0][3] else (o_in[0] if o_in else "")
     ord_ = f"(mk_ord {csl(o_in)} {csl(o_out)} {csl([l[1] for l in gl])} {cl('(%s,%s)' % (cs(n), csl(f)) for n, f in o_fi)} {cs(o_const)})"
-    return f"CRound {ccirc(d)} {ord_} (Ok {clines(wl)}) {cres_circ(obs)}"
+    return f"CRound {ccirc(d)} {ord_} {cs(obs['wtext'])} (Ok {clines(wl)}) {cres_circ(obs)}"
 
 
 # ------------------------------------------------------------------ evidence statistics
